@@ -187,7 +187,7 @@ def decl_states(d):
     return list(s)
 
 
-def build(d, route="event", rng=None, lambda_backend=True, order=None):
+def build(d, route="event", rng=None, lambda_backend=True, order=None, reuse=False):
     """routes: event (Event objects), legacy (transition=/birth_death= lists where possible, else events),
        incremental (add_* calls), mixed (random per process)"""
     import pg
@@ -258,12 +258,15 @@ def build(d, route="event", rng=None, lambda_backend=True, order=None):
     if tr_objs: kw["transition"] = [o for _, o in tr_objs]
     if bd_objs: kw["birth_death"] = [o for _, o in bd_objs]
     if ode_objs: kw["ode"] = [o for _, o in ode_objs]
-    m = pg.model(lambda_backend=lambda_backend, **kw)
-    for kind, o in incr:
-        if kind == "ode": m.add_ode(o)
-        elif isinstance(o, tuple) and o[0] == "T": m.add_transition(o[1])
-        elif isinstance(o, tuple): m.add_birth_death(o[1])
-        else: m.add_event(o)
+    # reuse: the same definition objects (Transition / Event instances) are used for a first model that is thrown away;
+    # entering a definition into a model must not change the definition
+    for _ in range(2 if reuse else 1):
+        m = pg.model(lambda_backend=lambda_backend, **kw)
+        for kind, o in incr:
+            if kind == "ode": m.add_ode(o)
+            elif isinstance(o, tuple) and o[0] == "T": m.add_transition(o[1])
+            elif isinstance(o, tuple): m.add_birth_death(o[1])
+            else: m.add_event(o)
     order_out = [k for k, _ in ev_objs] + [k for k, _ in tr_objs] + [k for k, _ in bd_objs] + \
                 [k for k, _ in incr if k != "ode"]
     return m, order_out
